@@ -112,6 +112,8 @@ impl Addr {
     pub fn into_string(self) -> (r: Str) ensures r@ == self@ { unimplemented!() }
     #[verifier::external_body]
     pub fn as_str(&self) -> (r: &Str) ensures r@ == self@ { unimplemented!() }
+    #[verifier::external_body]
+    pub fn as_ref(&self) -> (r: &Str) ensures r@ == self@ { unimplemented!() }
 }
 
 /// `impl Into<String>` arguments
